@@ -200,6 +200,20 @@ class Module:
         self.relpath = relpath
         self.src = src
         self.tree = ast.parse(src, filename=path)
+        self.normalised: Dict[str, List[str]] = {}
+        if os.environ.get('SA_NO_NORMALISE') != '1':
+            from .normalise import normalise_module
+            self.normalised = normalise_module(self.tree, name)
+        # program order of every node (depth first, as written): rules that ask "which comes first" use this and not
+        # line numbers, because statements read through from a helper keep the helper's line numbers
+        _k = [0]
+
+        def _number(node):
+            node.order = _k[0]
+            _k[0] += 1
+            for ch in ast.iter_child_nodes(node):
+                _number(ch)
+        _number(self.tree)
         self.functions: Dict[str, FuncInfo] = {}  # qualname -> FuncInfo (all, including methods and nested)
         self.classes: Dict[str, ClassInfo] = {}
         self.imports: Dict[str, Tuple[str, Optional[str]]] = {}  # local -> (module dotted, name or None for module)
